@@ -1,8 +1,186 @@
-import EdpVerif.Drv.Common
+import EdpVerif.Drv.Etf
+import EdpVerif.Generated.Control
+import EdpVerif.Spec.Control
 namespace Edp.Drv
+open Edp Edp.Control
 
-/-- driver requests of property C08 (stub: nothing handled yet) -/
+def c08tbl : Table := Gen.controlTable
+
+def optText : Option Term → String
+  | some t => t.text
+  | none => "none"
+
+def getMsg (s : String) : Except String Msg :=
+  match Msg.ofText s with
+  | some m => .ok m
+  | none => .error ("bad-msg " ++ s.take 40)
+
+/-- model of `from_term` followed by both serialisers -/
+def c08rt (t : Term) : String :=
+  match parse c08tbl t with
+  | .ok m =>
+    -- `=` abbreviates "the same text as the input" / "the same text as to_term"
+    let to := optText (toTerm c08tbl m)
+    let into := optText (intoTerm c08tbl m)
+    "ok " ++ m.text ++ " " ++ (if to == t.text then "=" else to) ++ " " ++ (if into == to then "=" else into)
+  | .error .err => "err"
+  | .error .panic => "panic"
+
+def outText : Out → String
+  | .fld f => f
+  | .uid f => "#" ++ f
+
+/-! ### Spec oracle on the implementation's observed behaviour (no use of the model's `parse`/`toTerm`) -/
+
+def sameTerm (a b : Term) : Bool := Value.same a.den b.den
+
+/-- a structured message the implementation returned for tuple `els` agrees with the protocol table: the variant
+implements an operation with this tag, and every field holds the element at the position of its role -/
+def structuredOk (v : String) (fs : List (String × FVal)) (tag : Nat) (els : List Term) : Option String :=
+  match lookup Spec.opOfVariant v with
+  | none => some ("unknown-variant " ++ v)
+  | some pn =>
+    match Spec.findOp pn with
+    | none => some ("no-protocol-op " ++ pn)
+    | some op =>
+      if op.tag != tag then some ("tag " ++ toString tag ++ " protocol " ++ pn ++ "=" ++ toString op.tag) else
+      match (op.fields :: op.alt).find? (fun l => l.length + 1 == els.length) with
+      | none => some ("arity " ++ toString els.length ++ " protocol " ++ pn ++ "=" ++ toString (op.fields.length + 1))
+      | some layout =>
+        if fs.length != layout.length then some "field-count" else
+        let bad := fs.filter fun (f, x) =>
+          match lookup Spec.roleOfField f with
+          | none => true
+          | some role =>
+            match layout.idxOf? role with
+            | none => true
+            | some k =>
+              match els[k + 1]?, x with
+              | some e, .term t => !(t == e)
+              | some e, .uid n => !(role == Spec.idRole && Spec.intOf e == some (n : Int))
+              | none, _ => true
+        match bad with
+        | [] => none
+        | (f, _) :: _ => some ("field " ++ f)
+
+/-- the property on one `from_term`/`to_term`/`into_term` observation -/
+def c08prop (t : Term) (res : List String) : String :=
+  match Spec.shape t, res with
+  | .notControl, ["err"] => "ok"
+  | .notControl, r => "FAIL not-a-control-tuple-but " ++ (r.head?.getD "?")
+  | _, ["panic"] => "FAIL panic"
+  | .badId, ["err"] => "ok"
+  | .control, ["err"] => "FAIL rejected"
+  | _, ["ok", m, to, into] =>
+    let to := if to == "=" then t.text else to
+    let into := if into == "=" then to else into
+    match Msg.ofText m, Term.ofText to, Term.ofText into, t with
+    | some msg, some tt, some it, .tuple (.int tag :: rest) =>
+      if !(sameTerm tt t) then "FAIL to_term-differs"
+      else if !(tt == it) then "FAIL into_term-differs"
+      else
+        match msg with
+        | .generic ty l =>
+          if (ty : Int) == tag && l == rest then "ok" else "FAIL generic-fields"
+        | .known v fs =>
+          match structuredOk v fs tag.toNat (.int tag :: rest) with
+          | none => "ok"
+          | some why => "FAIL " ++ why
+    | _, _, _, _ => "bad-op c08prop-parse"
+  | _, _ => "bad-op c08prop-result"
+
+/-- what `to_term` produced for a message built with marker fields: protocol tag and element order -/
+def c08num (v : String) (tag : Nat) (fields : List String) : String :=
+  match lookup Spec.opOfVariant v with
+  | none => "FAIL unknown-variant"
+  | some pn =>
+    match Spec.findOp pn with
+    | none => "FAIL no-protocol-op"
+    | some op =>
+      let roles := fields.map fun f => (lookup Spec.roleOfField f).getD "?"
+      if op.tag != tag then "FAIL tag " ++ toString tag ++ " protocol " ++ pn ++ "=" ++ toString op.tag
+      else if roles == op.fields || op.alt.contains roles then "ok"
+      else "FAIL layout " ++ ",".intercalate roles
+
+/-- after the wire: same variant, same field names, every field denotes what it did; ids unchanged -/
+def c08wireprop (m : Msg) (res : List String) : String :=
+  match res with
+  | ["ok", m'] =>
+    match Msg.ofText m', m with
+    | some (.known w gs), .known v fs =>
+      if v != w then "FAIL variant " ++ w
+      else if fs.length != gs.length then "FAIL field-count"
+      else
+        let bad := fs.filter fun (f, x) =>
+          match x, lookup gs f with
+          | .term a, some (.term b) => !(sameTerm a b)
+          | .uid a, some (.uid b) => a != b
+          | _, _ => true
+        match bad with
+        | [] => "ok"
+        | (f, _) :: _ => "FAIL field " ++ f
+    | some (.generic a l), .generic b r =>
+      if a == b && l.length == r.length && (l.zip r).all (fun (x, y) => sameTerm x y) then "ok" else "FAIL generic"
+    | some _, _ => "FAIL variant-kind"
+    | none, _ => "bad-op c08wireprop-parse"
+  | ["err"] => "FAIL rejected-after-wire"
+  | r => "FAIL " ++ (r.head?.getD "?")
+
+def modelWire (t : Term) : Except String Term :=
+  match encode t with
+  | .error _ => .error "encerr"
+  | .ok b =>
+    match decode Ext.none b with
+    | .ok t' => .ok t'
+    | .error _ => .error "decerr"
+
 def handleC08 : List String → Option String
+  | ["c08rt", t] => some <| run do
+    let t ← getTerm t
+    pure (c08rt t)
+  | ["c08ser", m] => some <| run do
+    let m ← getMsg m
+    pure (optText (toTerm c08tbl m) ++ " " ++ optText (intoTerm c08tbl m))
+  | ["c08wire", m] => some <| run do
+    let m ← getMsg m
+    match toTerm c08tbl m with
+    | none => pure "none"
+    | some t =>
+      match modelWire t with
+      | .error e => pure e
+      | .ok t' =>
+        match parse c08tbl t' with
+        | .ok m' => pure ("ok " ++ m'.text)
+        | .error .err => pure "err"
+        | .error .panic => pure "panic"
+  | ["c08row", v] => some <|
+    match findTo c08tbl.toArms v, findTo c08tbl.intoArms v with
+    | some b, some c =>
+      match enumDisc c08tbl b.head, enumDisc c08tbl c.head with
+      | some d, some e =>
+        toString d ++ " ," ++ ",".intercalate (b.outs.map outText) ++ " " ++
+          toString e ++ " ," ++ ",".intercalate (c.outs.map outText)
+      | _, _ => "none"
+    | _, _ => "none"
+  | ["c08try", n] => some <|
+    match fromU8 c08tbl n.toNat! with
+    | some name => "Some(" ++ name ++ ")=" ++ (match enumDisc c08tbl name with | some d => toString d | none => "?")
+    | none => "None"
+  | "c08prop" :: t :: res => some <| run do
+    let t ← getTerm t
+    pure (c08prop t res)
+  | ["c08num", v, tag, fields] => some <|
+    c08num v tag.toNat! ((fields.splitOn ",").filter (· != ""))
+  | "c08wireprop" :: m :: res => some <| run do
+    let m ← getMsg m
+    pure (c08wireprop m res)
+  | ["c08idprop", id, t] => some <| run do
+    let t ← getTerm t
+    match t with
+    | .tuple (_ :: e :: _) =>
+      if Spec.intOf e == some (id.toNat! : Int) then pure "ok"
+      else pure ("FAIL id " ++ id ++ " serialised-as " ++ e.text)
+    | _ => pure "FAIL not-a-tuple"
   | _ => none
 
 end Edp.Drv
